@@ -220,6 +220,10 @@ func (lalr *LALR1) CalcLookbacks() []Relation {
 		for tr_2 := range lalr.DRSet {
 			SyIndex := lalr.trans[tr_2].sym_or_rule
 			if SyIndex == leftPart.ID {
+				// (q, A->w) lookback (p, A) only if p --w--> q
+				if end, ok := lalr.walkPath(lalr.trans[tr_2].q, lalr.G.ProductoinRules[ruleIndex].RighPart); !ok || end != tr.q {
+					continue
+				}
 				// trIndex lookback tr2
 				res = append(res, Relation{x: trIndex, y: tr_2})
 			}
